@@ -177,7 +177,8 @@ class C05(Check):
     def sample(self, m, name, k, sign, outcome):
         if m._check() != z3.sat: return None
         mdl = m.model_dict(m.solver.model())
-        return {"position": name, "kind": k, "sign": sign, "outcome": outcome, "text": self.text(mdl)}
+        mdl["_ctx"] = m.ctx
+        return {"position": name, "kind": k, "sign": sign, "outcome": outcome, "text": self.render_case(m.ctx, mdl)}
 
     def text(self, model):
         ctx = model["_ctx"] if "_ctx" in model else None
@@ -227,7 +228,13 @@ class C05(Check):
         return True, f"{case['kind']}:{name}", f"{case['text']!r} parses to {r['ok']} (expected real {expect!r})"
 
     def validate(self, runner, sample):
-        return "skip"
+        """the interpreted parser and the native one must agree on accept / reject for the sampled literal"""
+        if sample.get("text") is None: return "skip"
+        r = runner.call({"op": "parse_any", "kind": "program", "text": sample["text"]})
+        nat_ok = "ok" in r
+        if nat_ok != (sample["outcome"] == "Ok"):
+            return f"accept/reject differs on {sample['text']!r}: native {'Ok' if nat_ok else r} mirsym {sample['outcome']}"
+        return None
 
     def canary(self, runner, tier):
         ok, role, text = self.confirm(runner, {"text": "MOVE ro[0] 5", "ctx": {"pos": 0, "kind": "i", "sign": "none"}, "lit": 6, "flit": None, "op": None, "kind": "signed-value", "detail": ""})
